@@ -198,6 +198,9 @@ fn verdict(doc: &str, prefix: &str, s: &str, mid: Option<&str>, suffix: &str) ->
 }
 
 fn unhex(s: &str) -> Option<String> {
+    if s != "-" && (s.len() % 2 != 0 || !s.bytes().all(|b| b.is_ascii_hexdigit())) {
+        return None; // e.g. `HOOK-DIED`, `NO-CLI …`
+    }
     String::from_utf8(parse_bytes(s)).ok()
 }
 
@@ -542,6 +545,18 @@ pub fn exec(a: &[&str]) -> String {
                 Err(e) => format!("REREAD-FAIL got=error:{}", e.replace(' ', "_")),
             };
             format!("{} {v}", hex_bytes(text.as_bytes()))
+        }
+        // anc <forest encoding>: enforce_anchor_soundness + emit_yaml_value on a constructed table
+        "anc" => {
+            let r = quote_server(&format!("e {}", a[1]));
+            let Some(text) = unhex(&r) else { return r };
+            let toks: Vec<String> = text
+                .split_whitespace()
+                .filter(|w| (w.starts_with("&n") || w.starts_with("*n")) && w[2..].chars().all(|c| c.is_ascii_digit()) && w.len() > 2)
+                .map(|w| format!("{}{}", &w[..1], &w[2..]))
+                .collect();
+            let ok = alias_order_ok(&text).is_ok() && load_json(format!("{text}\n").as_bytes()).is_ok();
+            format!("{} {}", if toks.is_empty() { "-".to_string() } else { toks.join(",") }, if ok { "SOUND" } else { "UNSOUND" })
         }
         "ind" => cli_indent_probe(num(a[1])),
         // sloop <hexdoc> <indent>
@@ -1039,6 +1054,37 @@ fn gen_prog(r: &mut Rng) -> String {
     }
 }
 
+/// Random (value tree, anchor table) in the forest encoding, with no mark below an alias node.
+/// Object children get increasing distinct labels, array children their index, so the model's
+/// ordered value equality coincides with `OwnedValue`'s.
+fn gen_forest(r: &mut Rng, depth: usize, under_alias: bool, names: u64, arr: bool, out: &mut String) {
+    let n = r.range(if depth == 0 { 2 } else { 0 }, 4) as usize;
+    let mut label = 0u64;
+    for i in 0..n {
+        label = if arr { i as u64 } else { label + r.range(1, 2) };
+        let mark = if under_alias {
+            "n".to_string()
+        } else {
+            match r.below(5) {
+                0 | 1 => format!("d{}", r.below(names)),
+                2 | 3 => format!("a{}", r.below(names)),
+                _ => "n".to_string(),
+            }
+        };
+        let kind = if depth >= 3 { 0 } else { r.below(4) };
+        let payload = match kind {
+            1 => 9,
+            2 => 8,
+            _ => r.range(1, 3),
+        };
+        out.push_str(&format!("N{label}.{mark}.{payload}["));
+        if payload >= 8 {
+            gen_forest(r, depth + 1, under_alias || mark.starts_with('a'), names, payload == 8, out);
+        }
+        out.push(']');
+    }
+}
+
 /// Source renderings of a words-joined string for the `ssv` op.
 fn gen_src_scalar(r: &mut Rng) -> String {
     let words: Vec<&str> = (0..r.range(1, 3)).map(|_| *r.pick(&["ab", "c1", "x-y", "w:z", "q#r", "it", "0x1F", "-", "d"])).collect();
@@ -1112,6 +1158,16 @@ pub fn gen(tier: Tier, r: &mut Rng, emit: &mut dyn FnMut(String)) {
     for n in 0..=8 {
         if n <= 7 {
             emit(format!("C15 ind {n}"));
+        }
+    }
+    // ---- anchor-soundness pass on constructed (value tree, anchor table)
+    let n_anc = if quick { 1500 } else { 30_000 };
+    for _ in 0..n_anc {
+        let mut enc = String::new();
+        let names = r.range(1, 3);
+        gen_forest(r, 0, false, names, false, &mut enc);
+        if !enc.is_empty() {
+            emit(format!("C15 anc {enc}"));
         }
     }
     // ---- leg 1b: streaming emitter in process
